@@ -294,6 +294,23 @@ def small(chk, facts, cm):
         except Undecided as e:
             v, d = UNDECIDED, e.cause
         chk.add("C12.N", "Cube::%s of the zero cube" % mname, v, d, where=where_of(b))
+    # ---- cubes mentioning all 32 variables (every lane carries a literal: pos | neg is all ones, as for the zero cube)
+    for label, pv in (("all negative", 0), ("all positive", 0xFFFFFFFF), ("alternating", 0x55555555), ("one positive", 1 << 31), ("one negative", 0x7FFFFFFF)):
+        for mname, want in (("num_lits", 32), ("num_gates", 31)):
+            b = cm.method(mname)
+            try:
+                it = Interp(facts)
+                st = State()
+                f = [None, None]
+                f[cm.pi] = W(32, val=pv)
+                f[cm.ni] = W(32, val=pv ^ 0xFFFFFFFF)
+                outs = it.call_body(b, [arg_for(b["sig"]["inputs"][0], Agg("adt", CUBE, 0, f), st)], st, {})
+                o, v, d = single_return(outs)
+                if o is not None:
+                    v, d = (PROVED, "") if isinstance(o.value, W) and o.value.val == want else ((REFUTED, "%s of the minterm of 32 variables with pos = %#x is %r, expected %d" % (mname, pv, o.value, want)) if isinstance(o.value, W) and o.value.val is not None else (UNDECIDED, "result %r" % (o.value,)))
+            except Undecided as e:
+                v, d = UNDECIDED, e.cause
+            chk.add("C12.N", "Cube::%s of a cube over all 32 variables (%s)" % (mname, label), v, d, where=where_of(b))
     # ---- pos_vars / neg_vars enumerate exactly the literals, increasing
     for mname, fld in (("pos_vars", "P"), ("neg_vars", "N")):
         b = cm.method(mname)
